@@ -7,7 +7,8 @@ Import ListNotations.
 Definition op_table : list (bytes * (sx -> option sx)) :=
   [ (str "c19.write"%string, op_c19_write);
     (str "c19.commit_input"%string, op_c19_commit_input);
-    (str "c19.valid"%string, op_c19_valid)
+    (str "c19.valid"%string, op_c19_valid);
+    (str "c19.items"%string, op_c19_items)
   ] ++ session_ops ++ handler_ops ++ paillier_ops ++ poly_ops ++ pool_ops ++ ot_ops ++ ref_ops ++ cbor_ops ++ nonce_ops ++ zk_ops ++ twoparty_ops.
 
 Fixpoint lookup (name : bytes) (t : list (bytes * (sx -> option sx))) : option (sx -> option sx) :=
